@@ -147,6 +147,17 @@ def _string_to_number(text: str) -> Union[int, float]:
     return number
 
 
+def as_double(number: Union[int, float]) -> Union[int, float]:
+    """Keep a numeric result a double: host integers are exact only up to 2**53,
+    beyond that the value is rounded like any other double."""
+    if isinstance(number, int) and not -9007199254740992 <= number <= 9007199254740992:
+        try:
+            return float(number)
+        except OverflowError:
+            return float("inf") if number > 0 else float("-inf")
+    return number
+
+
 def to_number(value: JSValue) -> Union[int, float]:
     """Convert a JavaScript value to number."""
     if value is UNDEFINED:
@@ -156,7 +167,7 @@ def to_number(value: JSValue) -> Union[int, float]:
     if isinstance(value, bool):
         return 1 if value else 0
     if isinstance(value, (int, float)):
-        return value
+        return as_double(value)
     if isinstance(value, str):
         return _string_to_number(value)
     # TODO: Handle objects with valueOf
